@@ -395,6 +395,8 @@ Apply(h, o) ==
     [] o.op = "Contains" -> {Res(Ok(Bool(IF h[o.r].t = "L" THEN IndexOf(h[o.r], o.v) >= 0 ELSE KeysOf(h[o.r], o.v) # {})), h)}
     [] o.op = "KeyOf" -> IF KeysOf(h[o.r], o.v) = {} THEN {Res(Panic, h)}
                          ELSE {Res(Ok(V("str", k)), h) : k \in KeysOf(h[o.r], o.v)}
+    \* String() / FormatString(n): text only, the receiver is unchanged (C09); the text itself is C01/C02/C16's business
+    [] o.op = "Text" -> {Res(Ok(V("none", 0)), h)}
     [] o.op = "NativeCheck" -> {Res(Ok(Bool(TRUE)), h)} \* Native*(r) holds no container at any depth and equals the content
     [] o.op \in {"Clone", "CloneO"} ->
          LET s == CopyVal(h, Ref(o.r), CloneF) IN {Res(Ok(s[2]), s[1])}
